@@ -1,6 +1,6 @@
 /* TRUSTED: fopen/fgets/fclose (model) -- the file is a sequence of at most INI_LINES lines, each any bytes (embedded NULs allowed by fgets are excluded: a line is a NUL-terminated string of at most INI_LINE_MAX bytes, possibly without a newline); fopen may fail */
 /* TRUSTED: sscanf (model of the C scanset semantics for the formats pinifile.c uses: literals, blanks, %[^set] with at least one character) -- it is the specification of libc's sscanf here */
-/* TRUSTED: isspace (C locale), atoi (not modelled: getters using it are checked for the textual forms only) */
+/* TRUSTED: isspace (C locale) */
 #ifndef VERIF_ENV_STDIO_INI_C
 #define VERIF_ENV_STDIO_INI_C
 #include "env/verif.h"
